@@ -16,6 +16,11 @@ Ltac open_step s a H :=
   destruct s as [cnt gc sg og gcn bgn rd wr pc app refs dr];
   destruct a; simpl in H; unfold usable in H; simpl in H.
 
+(** reachable = after any schedule of any threads from a new manager with any number of threads *)
+Theorem reachable_def : forall c s,
+  reachable c s <-> exists n sched, run c (init c n) sched = Some s.
+Proof. intros; reflexivity. Qed.
+
 (** ** (a) at most one sweep at a time *)
 
 Theorem at_most_one_sweep : forall c s, reachable c s ->
